@@ -23,9 +23,10 @@ def main():
     signal.signal(signal.SIGALRM, lambda *_: (print(f'[{a.prop}] watchdog expired', flush=True), os._exit(2)))
     signal.alarm(WATCHDOG[a.tier])
     try:
-        mod = importlib.import_module('harness.checks.' + a.prop)
         if a.replay:
-            return mod.replay(a.replay)
+            from harness.replay import replay
+            return replay(a.prop, a.replay)
+        mod = importlib.import_module('harness.checks.' + a.prop)
         chk = Check(a.prop, a.tier, seed, level=getattr(mod, 'LEVEL', 'proof'))
         chk.proof_side()
         search = mod.run(chk)
